@@ -6,7 +6,7 @@ set -e
 cmake -G Ninja -S "$SRC" -B "$B" >/dev/null
 cmake --build "$B" >/dev/null
 cd "$B"
-OPENBLAS_NUM_THREADS=1 ctest --test-dir "$B" -j8 --timeout 900 --output-on-failure -O "$B/ctest.log" > /dev/null || true
+OPENBLAS_NUM_THREADS=1 ctest --test-dir "$B" -j8 --timeout ${CTEST_TIMEOUT:-900} --output-on-failure -O "$B/ctest.log" > /dev/null || true
 grep -E "tests passed|tests failed" "$B/ctest.log" || true
 # the 62 baseline result lines are "<name>: OK" style lines printed by the test programs
 grep -ahoE "^[A-Za-z0-9 /_\-]+(: |\.\.\. ?)(OK|Ok|ok|PASS|FAIL|Fail|fail|ERROR)[A-Za-z!. ]*$" "$B/Testing/Temporary/LastTest.log" | sort | uniq -c | awk '{c[$NF]++} END{for(k in c) print k, c[k]}'
